@@ -305,12 +305,16 @@ impl ColumnMetrics {
         pattern: &str)
         -> Option<Pos>
     {
+        // The empty pattern matches at any position.
+        if pattern.is_empty() { return Some(start); }
+
         let mut end = start;
         while let Some(adv) = self.next_position(text, end) {
-            if pattern[end.byte-start.byte .. adv.byte-start.byte] 
-                != text[end.byte..adv.byte]
-            {
-                break;
+            // The pattern does not match if it ends within, or does not
+            // contain, the next column-aligned section of the text.
+            match pattern.get(end.byte-start.byte .. adv.byte-start.byte) {
+                Some(p) if p == &text[end.byte..adv.byte] => (),
+                _ => break,
             }
             if adv.byte - start.byte >= pattern.len() {
                 return Some(adv);
